@@ -831,6 +831,37 @@ func shapeOf(kids []*c18.S) string {
 	return b.String()
 }
 
+var valueMaps = []func(string) string{
+	func(v string) string { return v },
+	func(v string) string {
+		if v == "k1" || v == "v" || v == "1" {
+			return ""
+		}
+		return v
+	},
+	func(v string) string { return v + "<&\"'\\>/ \u00e9" },
+}
+
+// mapValues returns a copy of the tree with every leaf value (and with it the name of the list
+// entry a key value identifies) replaced.
+func mapValues(d *c18.D, f func(string) string) *c18.D {
+	c := &c18.D{Name: d.Name}
+	for _, v := range d.Values {
+		c.Values = append(c.Values, f(v))
+	}
+	for _, k := range d.Kids {
+		c.Kids = append(c.Kids, mapValues(k, f))
+	}
+	// a list entry is named after its key value: entries are the children of a node whose children
+	// all start with a key leaf carrying the child's name
+	for i, k := range d.Kids {
+		if len(k.Kids) > 0 && len(k.Kids[0].Values) == 1 && k.Kids[0].Values[0] == k.Name {
+			c.Kids[i].Name = f(k.Name)
+		}
+	}
+	return c
+}
+
 func runGenerated(c *engine.Ctx) {
 	sb, db := 3, 5
 	if !c.Quick() {
@@ -851,20 +882,25 @@ func runGenerated(c *engine.Ctx) {
 			continue
 		}
 		for ti, t := range c18.DataTrees(kids, db) {
-			root := &c18.D{Name: "root", Kids: t}
-			if len(t) == 0 || !c18.ValidTree(kids, root) {
+			root0 := &c18.D{Name: "root", Kids: t}
+			if len(t) == 0 || !c18.ValidTree(kids, root0) {
 				continue
 			}
-			for _, enc := range []string{"rfc7951", "json", "xml"} {
-				if !c.Case(fmt.Sprintf("g%d:%d:%s", gi, ti, enc)) {
-					continue
-				}
-				c.Add("states", 1)
-				c.Add("transitions", 1)
-				vs := checkGenerated(genRec{kids, root, enc})
-				c.Outcome(fmt.Sprintf("generated:%s:viol=%v", enc, len(vs) > 0))
-				for _, v := range vs {
-					c.Report(v)
+			// the same tree with other strings as values (every generated leaf is a string): the first
+			// key and the plain value empty; every value with the characters the encodings escape
+			for vi, vm := range valueMaps {
+				root := mapValues(root0, vm)
+				for _, enc := range []string{"rfc7951", "json", "xml"} {
+					if !c.Case(fmt.Sprintf("g%d:%d:%d:%s", gi, ti, vi, enc)) {
+						continue
+					}
+					c.Add("states", 1)
+					c.Add("transitions", 1)
+					vs := checkGenerated(genRec{kids, root, enc})
+					c.Outcome(fmt.Sprintf("generated:%s:values=%d:viol=%v", enc, vi, len(vs) > 0))
+					for _, v := range vs {
+						c.Report(v)
+					}
 				}
 			}
 		}
